@@ -27,7 +27,9 @@ def udpDatagram (src dst : List Nat) (sport dport : Nat) (payload : List Nat) : 
   let length := 8 + payload.length
   let h := udpEncode (zeros 8) { srcPort := sport, dstPort := dport, length := length, checksum := 0 }
   let x := checksum payload (pseudoHeaderChecksum 17 src dst)
-  setAt h 6 (be16 (65535 - udpCalculateChecksum h x length)) ++ payload
+  let c := 65535 - udpCalculateChecksum h x length
+  -- RFC 768: a computed zero goes out as all ones
+  setAt h 6 (be16 (if c == 0 then 65535 else c)) ++ payload
 
 /-- `tcp.sendTCP`: fixed header, the option bytes as given (already padded by their makers), one payload view -/
 def tcpSegment (src dst : List Nat) (sport dport seq ack flags wnd : Nat) (opts payload : List Nat) : List Nat :=
